@@ -4,6 +4,7 @@ from __future__ import annotations
 
 from abc import ABC
 from contextlib import suppress
+from copy import copy
 from functools import partial
 from typing import TYPE_CHECKING
 from typing import Awaitable
@@ -92,13 +93,19 @@ class CachingLoaderMixin(ABC, _CachingLoaderProtocol):
         # globals when this caller has none leaks data between callers.
         #
         # A template loaded from inside a render or a static analysis (`include`,
-        # `render`, `extends` pass the active render context) is rendered with
-        # that context and its own globals are never read. Leave the cached
-        # object alone in that case: rebinding would change the result of a
-        # later `render()` of a template someone else got from `get_template()`.
+        # `render`, `extends` pass the active render context) is
+        # rendered with that context and its own globals are never read. Leave
+        # the cached object alone in that case: rebinding would change the
+        # result of a later `render()` of a template someone else got from
+        # `get_template()`. The caller gets a shallow copy bound to its own
+        # globals, so the previous caller's globals do not reach it either.
         if context is None:
             cached_template.global_data = env.make_globals(globals)
-        return cached_template
+            return cached_template
+
+        bound = copy(cached_template)
+        bound.global_data = env.make_globals(globals)
+        return bound
 
     async def _check_cache_async(
         self,
@@ -124,13 +131,19 @@ class CachingLoaderMixin(ABC, _CachingLoaderProtocol):
         # globals when this caller has none leaks data between callers.
         #
         # A template loaded from inside a render or a static analysis (`include`,
-        # `render`, `extends` pass the active render context) is rendered with
-        # that context and its own globals are never read. Leave the cached
-        # object alone in that case: rebinding would change the result of a
-        # later `render()` of a template someone else got from `get_template()`.
+        # `render`, `extends` pass the active render context) is
+        # rendered with that context and its own globals are never read. Leave
+        # the cached object alone in that case: rebinding would change the
+        # result of a later `render()` of a template someone else got from
+        # `get_template()`. The caller gets a shallow copy bound to its own
+        # globals, so the previous caller's globals do not reach it either.
         if context is None:
             cached_template.global_data = env.make_globals(globals)
-        return cached_template
+            return cached_template
+
+        bound = copy(cached_template)
+        bound.global_data = env.make_globals(globals)
+        return bound
 
     def load(
         self,
